@@ -186,8 +186,9 @@ func resolver(idx int, f *FShape) func(graphql.FieldContext) (interface{}, error
 // ---- schema + document per shape (cached) ----------------------------------------------------
 
 type compiled struct {
-	schema *graphql.Schema
-	doc    *ast.Document
+	schema  *graphql.Schema
+	doc     *ast.Document
+	usesVar bool // the document has a directive on $nv
 }
 
 var compileCache = map[string]*compiled{}
@@ -291,7 +292,7 @@ func compile(c *Case) (*compiled, error) {
 	if len(errs) > 0 {
 		return nil, fmt.Errorf("document %q rejected: %v", c.Document(), errs[0].Message)
 	}
-	cc := &compiled{schema: s, doc: doc}
+	cc := &compiled{schema: s, doc: doc, usesVar: c.Syntax != 0 && c.UsesNullVar()}
 	compileCache[key] = cc
 	return cc, nil
 }
@@ -390,6 +391,11 @@ func RunReal(c *Case) (obs *Observed, err error) {
 	if err != nil {
 		return nil, err
 	}
+	usesVar := cc.usesVar
+	var vars map[string]interface{}
+	if usesVar {
+		vars = map[string]interface{}{NullVar: nil}
+	}
 	ctx, cancel := context.WithCancel(context.Background())
 	defer cancel()
 	rt := &runtime{sched: c.Schedule, cancelAt: c.CancelAt, cancel: cancel}
@@ -406,11 +412,12 @@ func RunReal(c *Case) (obs *Observed, err error) {
 			}
 		}()
 		resp = graphql.Execute(&graphql.Request{
-			Context:      ctx,
-			Document:     cc.doc,
-			Schema:       cc.schema,
-			InitialValue: &objVal{rt: rt, shape: c.Shape, w: c.World, path: ""},
-			IdleHandler:  rt.idle,
+			VariableValues: vars,
+			Context:        ctx,
+			Document:       cc.doc,
+			Schema:         cc.schema,
+			InitialValue:   &objVal{rt: rt, shape: c.Shape, w: c.World, path: ""},
+			IdleHandler:    rt.idle,
 		})
 	}()
 	obs.Rounds = rt.rounds
@@ -436,6 +443,12 @@ func RunReal(c *Case) (obs *Observed, err error) {
 	treeText(&b, obs.tree)
 	obs.Data = b.String()
 	for _, e := range resp.Errors {
+		if len(e.Path) == 0 && usesVar && strings.Contains(e.Message, "argument cannot be null") {
+			// the run-time coercion error of a directive argument: a request-level error of one
+			// collectFields call, kept apart from the field errors (see SelfCheck)
+			obs.DirectiveErrors = append(obs.DirectiveErrors, e.Message)
+			continue
+		}
 		obs.Errors = append(obs.Errors, ErrObs{Path: pathText(e.Path), Msg: canonMsg(e.Message)})
 	}
 	return obs, nil
